@@ -1123,7 +1123,9 @@ func (se *stanzaEncoder) EncodeToken(t xml.Token) error {
 				tok.Name.Space = se.ns
 			}
 			var foundID, foundFrom bool
-			attrs := tok.Attr[:0]
+			// The token's attributes belong to the caller, build a new slice instead
+			// of filtering in place.
+			attrs := make([]xml.Attr, 0, len(tok.Attr)+2)
 			for _, attr := range tok.Attr {
 				switch attr.Name.Local {
 				case "id":
@@ -1165,7 +1167,7 @@ func (se *stanzaEncoder) EncodeToken(t xml.Token) error {
 
 		// For all start elements, regardless of depth, prevent duplicate xmlns
 		// attributes. See https://mellium.im/issue/75
-		attrs := tok.Attr[:0]
+		attrs := make([]xml.Attr, 0, len(tok.Attr))
 		for _, attr := range tok.Attr {
 			if attr.Name.Local == "xmlns" && tok.Name.Space != "" {
 				continue
